@@ -216,7 +216,12 @@ class StmtMixin:
       self.exec_block(st.orelse)
 
   def st_FunctionDef(self, st):
-    raise Unsupported('nested def at line %d' % st.lineno)
+    # a local helper: loop-free, no decorators, no rebinding of enclosing names (checked), executed in place at each call
+    if st.decorator_list or any(isinstance(n, (ast.For, ast.While, ast.Try, ast.With, ast.Yield, ast.YieldFrom, ast.Nonlocal, ast.Global,
+                                               ast.FunctionDef, ast.Lambda)) for b in st.body for n in ast.walk(b)):
+      raise Unsupported('nested def %s at line %d is outside the supported shape' % (st.name, st.lineno))
+    from engine.values import Closure
+    self.env[st.name] = Closure(st)
 
   # -- loops ----------------------------------------------------------------
 
